@@ -100,12 +100,48 @@ def run(model, col, tier):
     col.check(len(loads) >= 1 and all(unparse(c.args[0]) == "path.open('rb')" for c in loads), "R17.2", f"{IR}::FilesystemModuleLoader.Load protocol", "pickle.load(path.open('rb'))",
               "module files are not read with pickle.load from a binary stream", IR, ld)
     # lookup order: the path as given first, the .nslir sibling only if it does not exist
-    first_if = next((s for s in ld.body if isinstance(s, ast.If)), None)
-    good = False
-    if first_if is not None and unparse(first_if.test) == "path.exists()":
-        p0 = find_assign(ld, "path")
-        good = bool(p0) and unparse(p0[0]) == f"pathlib.Path({ld.args.args[1].arg})" and any(isinstance(c, ast.Call) and dotted(c.func) == "pickle.load" for s in first_if.body for c in ast.walk(s)) \
-            and any("with_suffix('.nslir')" in unparse(s) for s in first_if.orelse)
+    # symbolic walk: the path variable is 'given' (Path(moduleName)) or 'suffixed' (.with_suffix('.nslir'));
+    # every path that reaches pickle.load must have tested exists() on 'given' first and load 'suffixed' only if that failed
+    from ..paths import paths as _paths
+
+    good = True
+    nload = 0
+    for evs, status in _paths(ld.body):
+        state = {}
+        tests = []
+        loaded = None
+        for e in evs:
+            if e.kind == "stmt" and isinstance(e.node, ast.Assign) and isinstance(e.node.targets[0], ast.Name):
+                v = e.node.value
+                t = unparse(v)
+                nm = e.node.targets[0].id
+                if t == f"pathlib.Path({ld.args.args[1].arg})" or t == f"Path({ld.args.args[1].arg})":
+                    state[nm] = "given"
+                elif isinstance(v, ast.Call) and last_attr(v) == "with_suffix" and isinstance(v.func.value, ast.Name) and state.get(v.func.value.id) == "given" and "nslir" in t:
+                    state[nm] = "suffixed"
+                elif isinstance(v, ast.Name) and v.id in state:
+                    state[nm] = state[v.id]
+            if e.kind == "cond":
+                base = e.node
+                neg = False
+                while isinstance(base, ast.UnaryOp) and isinstance(base.op, ast.Not):
+                    base, neg = base.operand, not neg
+                if isinstance(base, ast.Call) and last_attr(base) == "exists" and isinstance(base.func.value, ast.Name) and base.func.value.id in state:
+                    tests.append((state[base.func.value.id], e.val != neg))
+            node = e.node if e.kind in ("stmt", "return") else None
+            if node is not None:
+                for c in ast.walk(node):
+                    if isinstance(c, ast.Call) and dotted(c.func) == "pickle.load":
+                        inner = [x for x in ast.walk(c.args[0]) if isinstance(x, ast.Name) and x.id in state]
+                        loaded = state[inner[0].id] if inner else "?"
+        if loaded is None:
+            continue
+        nload += 1
+        ok_ = (tests[:1] == [("given", True)] and loaded == "given") or (tests[:2] == [("given", False), ("suffixed", True)] and loaded == "suffixed")
+        good = good and ok_
+    good = good and nload >= 2
+    if False:
+        pass
     col.check(good, "R17.2", f"{IR}::FilesystemModuleLoader.Load lookup order", "the file named is loaded if it exists; '<name>.nslir' is only the fallback",
               "the loader does not try the given path first: a stale '<name>.nslir' next to the file just written is loaded instead of it", IR, ld)
     col.check("assert isinstance(module, Module)" in unparse(ld) and [unparse(r.value) for r in ast.walk(ld) if isinstance(r, ast.Return)] == ["module"], "R17.2", f"{IR}::FilesystemModuleLoader.Load result", "returns the loaded Module", None, IR, ld)
